@@ -23,6 +23,7 @@ func TestProp(t *testing.T) {
 	addSingle(r)
 	addSeq(r)
 	addMulti(r)
+	addInit(r)
 	r.Main()
 	statMu.Lock()
 	defer statMu.Unlock()
